@@ -2,9 +2,14 @@ package checks
 
 import (
 	"fmt"
+	"os"
+	"path/filepath"
+	"strings"
+	"testing/synctest"
 	"time"
 
 	"github.com/eclipse/paho.mqtt.golang/packets"
+	"github.com/emitter-io/emitter/internal/event"
 	"github.com/emitter-io/emitter/verifsim/kernel"
 	"github.com/emitter-io/emitter/verifsim/mqttc"
 	"github.com/emitter-io/emitter/verifsim/world"
@@ -16,9 +21,9 @@ import (
 func init() {
 	kernel.Register(&kernel.World{
 		Property: "C14", Bubble: true, Run: runC14, RunsPerProc: 60, RunTimeout: 300 * time.Second,
-		Rule: "one run = two real brokers with durable state directories on /dev/shm joined over the simulated mesh; tape-generated sequence over 1-3 keys of ban / unban (real emitter/keyban/ requests on broker 0, each acknowledged) with a use of the key (subscribe) on broker 0 after EVERY acknowledgement, uses on broker 1 before and after the gossip has been delivered there, clock advances of 1 us, 1 s, 59 s, 61 s, clean restart (Close + NewService on the same directory) and crash restart (no shutdown code, restart on a copy of the directory taken at that instant) of broker 0 after any prefix, with a use on the restarted broker BEFORE any gossip reaches it; oracle = one boolean per key flipping at each acknowledgement; non-trivial = >= 1 ban followed by a refused use; distinct = distinct canonical logs",
-		Real:  []string{"broker.Service x2", "keyban service", "Service.Authorize", "cluster.Swarm (Notify, Contains, merge)", "event.State", "crdt.Durable (buntdb file + freecache)"},
-		Stub:  []string{"weaveworks/mesh (simmesh)", "client sockets (simnet)", "clock (synctest)", "crash image = copy of the state directory"},
+		Rule:        "one run = two real brokers with durable state directories on /dev/shm joined over the simulated mesh; tape-generated sequence over 1-3 keys of ban / unban (real emitter/keyban/ requests on broker 0, each acknowledged) with a use of the key (subscribe) on broker 0 after EVERY acknowledgement, uses on broker 1 before and after the gossip has been delivered there, clock advances of 1 us, 1 s, 59 s, 61 s, clean restart (Close + NewService on the same directory) and crash restart (no shutdown code, restart on a copy of the directory taken at that instant) of broker 0 after any prefix, with a use on the restarted broker BEFORE any gossip reaches it; oracle = one boolean per key flipping at each acknowledgement; non-trivial = >= 1 ban followed by a refused use; distinct = distinct canonical logs",
+		Real:        []string{"broker.Service x2", "keyban service", "Service.Authorize", "cluster.Swarm (Notify, Contains, merge)", "event.State", "crdt.Durable (buntdb file + freecache)"},
+		Stub:        []string{"weaveworks/mesh (simmesh)", "client sockets (simnet)", "clock (synctest)", "crash image = copy of the state directory"},
 		Assumptions: []string{"two requests of one client are at least 1 us apart (no timestamp tie between a ban and the unban that follows it)", "kill = process kill: what was written to the file is in the image (no power loss)"},
 	})
 }
@@ -92,6 +97,10 @@ func (w *c14World) checkUse(b, k int, when string) {
 
 func runC14(c *kernel.Ctx) {
 	t := c.Tape
+	if c.Params["campaign"] != "cluster" && (c.Params["campaign"] == "long" || t.Chance(1, 8)) {
+		runC14Long(c)
+		return
+	}
 	c.SleepToEpoch()
 	lic := world.Licenses[t.Choose(3)]
 	w := &c14World{c: c}
@@ -203,5 +212,76 @@ func runC14(c *kernel.Ctx) {
 	for i := range w.keys {
 		w.checkUse(0, i, "at the end")
 		w.checkUse(1, i, "after the gossip was delivered")
+	}
+}
+
+// runC14Long — the long-lived campaign: the replicated ban set of one broker (the real
+// event.State on a state directory, no sockets around it, so that hours cost nothing):
+// tape-generated ban / unban histories over 1-3 keys, then 7-30 hours pass - far beyond
+// every cache and every housekeeping interval of the set - and the state is closed and
+// opened again on the same directory, possibly several times. After each step: a key is
+// refused exactly when its last acknowledged request was a ban.
+func runC14Long(c *kernel.Ctx) {
+	t := c.Tape
+	c.SleepToEpoch()
+	dir := filepath.Join(c.Scratch, "longstate")
+	os.MkdirAll(dir, 0o755)
+	st := event.NewState(dir)
+	defer func() { st.Close() }()
+	nk := t.Range(1, 3)
+	keys := make([]event.Ban, nk)
+	banned := make([]bool, nk)
+	toggles := make([]int, nk)
+	for i := range keys {
+		keys[i] = event.Ban(fmt.Sprintf("key-%d-%032d", i, i))
+	}
+	check := func(when string) {
+		for i := range keys {
+			if got := st.Has(&keys[i]); got != banned[i] {
+				rule, what := "restart", "banned"
+				if !banned[i] {
+					what = "not banned"
+				}
+				if !strings.Contains(when, "restart") {
+					rule = map[bool]string{true: "ban-late", false: "unban-late"}[banned[i]]
+				}
+				c.Check(rule, "long-lived "+when, "key %d is %s (after %d ban/unban requests) but the ban set answers %v %s", i, what, toggles[i], got, when)
+			}
+		}
+	}
+	steps := t.Range(4, 25)
+	for s := 0; s < steps && !t.Exhausted(); s++ {
+		c.Step()
+		switch k := t.Choose(10); {
+		case k < 6:
+			i := t.Choose(nk)
+			time.Sleep(time.Duration(t.Range(1, 5000)) * time.Millisecond)
+			banned[i] = !banned[i]
+			toggles[i]++
+			if banned[i] {
+				st.Add(&keys[i])
+				c.NonTrivial()
+			} else {
+				st.Del(&keys[i])
+			}
+			c.Logf("key %d banned=%v", i, banned[i])
+			check("right after the request")
+		case k < 8:
+			d := time.Duration(t.Range(7, 30)) * time.Hour
+			time.Sleep(d)
+			synctest.Wait()
+			c.Stats.SimTime += d
+			c.Logf("%v pass", d)
+			c.Fault("hours-pass")
+			check(fmt.Sprintf("after %d hours", int(d.Hours())))
+		default:
+			st.Close()
+			time.Sleep(time.Duration(t.Range(1, 3000)) * time.Millisecond)
+			st = event.NewState(dir)
+			c.Logf("state closed and opened again")
+			c.Fault("state-restart")
+			check("after restart")
+		}
+		c.State(fmt.Sprintf("long banned=%v", banned))
 	}
 }
